@@ -1088,6 +1088,7 @@ def translate_all(src_root=None):
     out.append(translate_drain(src_root, known, known_params, known_recursive))
     out.append(translate_async_loop(src_root, known, known_params, known_recursive))
     out.append(translate_lifecycle(src_root, known))
+    out.append(translate_schedule(src_root))
     return "\n".join(out)
 
 
@@ -1817,6 +1818,41 @@ def translate_lifecycle(src_root, known):
         out.append(f"(* {fname} :: {cls}.{func}  sha256[:16]={hashlib.sha256(seg.encode()).hexdigest()[:16]}: the status test the method starts with *)")
         out.append(fn.translate())
     return "\n".join(out)
+
+
+# ---------------------------------------------------------------------------------------------------------------------
+# _schedule_state_tasks (shared by both engines): first one timer per delayed transition, in the order of the `after` map, then
+# the invoked services in order; a service that is not registered raises ImplementationMissingError before it is started
+def translate_schedule(src_root):
+    fname, cls, func = "base_interpreter.py", "BaseInterpreter", "_schedule_state_tasks"
+    text, fdef = _find_method(src_root, fname, cls, func)
+    src = f"{fname}:{func}"
+    body = [st for st in fdef.body if not _is_logger(st) and not (isinstance(st, ast.Expr) and isinstance(st.value, ast.Constant))]
+    steps = []
+    for st in body:
+        if not isinstance(st, ast.For) or st.orelse:
+            raise Untranslatable(f"{src}:{st.lineno}: expected only loops")
+        it = ast.unparse(st.iter)
+        if it == "state.after.items()":
+            inner = [x for x in st.body if isinstance(x, ast.For)]
+            calls = [ast.unparse(_call_of(y).func) for x in inner for y in x.body if _call_of(y) is not None and not _is_logger(y)]
+            if len(inner) != 1 or ast.unparse(inner[0].iter) != "transitions" or calls != ["self._after_timer"]:
+                raise Untranslatable(f"{src}:{st.lineno}: the `after` loop does not arm one timer per delayed transition")
+            steps.append("SAfterTimers")
+        elif it == "state.invoke":
+            lb = [x for x in st.body if not _is_logger(x)]
+            ok = len(lb) == 3 and ast.unparse(lb[0]) == "service_callable = self.machine.logic.services.get(invocation.src)" \
+                and isinstance(lb[1], ast.If) and ast.unparse(lb[1].test) == "service_callable is None" and len(lb[1].body) == 1 \
+                and isinstance(lb[1].body[0], ast.Raise) and ast.unparse(lb[1].body[0].exc).startswith("ImplementationMissingError(") \
+                and _call_of(lb[2]) is not None and ast.unparse(_call_of(lb[2]).func) == "self._invoke_service"
+            if not ok:
+                raise Untranslatable(f"{src}:{st.lineno}: the invoke loop is not `look the service up; missing: ImplementationMissingError; start it`")
+            steps.append("SServices")
+        else:
+            raise Untranslatable(f"{src}:{st.lineno}: loop over {it}")
+    seg = ast.get_source_segment(text, fdef) or ""
+    return (f"(* {fname} :: {func}  sha256[:16]={hashlib.sha256(seg.encode()).hexdigest()[:16]}: what is scheduled when a state is entered, in order *)\n"
+            f"Definition schedule_skeleton : list seff := [{'; '.join(steps)}].\n")
 
 
 def overriding_definitions(src_root=None):
